@@ -246,3 +246,90 @@ Proof.
     + rewrite E3, E2, Eu, Ek. ring.
     + eapply near_mono; [repeat apply near_mul; apply near_1pd; eassumption | lra].
 Qed.
+
+(* ---------------------------------------------------------------- forward error -> residual *)
+Lemma cubic_forward_to_residual (a b c d x r : C) (tau : R) : 0 <= tau <= / 10 ->
+  cval a b c d x = C0 -> Cmod (r - x)%C <= tau * Cmod x ->
+  Cmod (cval a b c d r) <= 5 * tau * csize a b c d r.
+Proof.
+  intros Ht Hx Hr. destruct (Ceq_dec x C0) as [Zx|Nx].
+  - rewrite Zx, Cmod_0, Rmult_0_r in Hr. apply Cmod_sub_0 in Hr. rewrite Hr, <- Zx, Hx, Cmod_0.
+    apply Rmult_le_pos; [lra|]. unfold csize.
+    pose proof (Cmod_ge_0 a). pose proof (Cmod_ge_0 b). pose proof (Cmod_ge_0 c). pose proof (Cmod_ge_0 d). pose proof (Cmod_ge_0 x).
+    assert (0 <= Cmod a * Cmod x * Cmod x * Cmod x) by (repeat apply Rmult_le_pos; assumption).
+    assert (0 <= Cmod b * Cmod x * Cmod x) by (repeat apply Rmult_le_pos; assumption).
+    assert (0 <= Cmod c * Cmod x) by (apply Rmult_le_pos; assumption). lra.
+  - set (rho := (r / x)%C).
+    assert (Px : 0 < Cmod x) by (now apply Cmod_gt_0).
+    assert (Hrho : near rho (1 + tau)).
+    { unfold near, rho. replace (r / x - C1)%C with ((r - x) / x)%C by (field; exact Nx).
+      rewrite Cmod_div by exact Nx. apply (Rmult_le_reg_r (Cmod x)); [exact Px|].
+      unfold Rdiv. rewrite Rmult_assoc, Rinv_l by lra. lra. }
+    assert (Er : r = (x * rho)%C) by (unfold rho; field; exact Nx).
+    rewrite Er.
+    replace (cval a b c d (x * rho)%C)
+      with (cval a b c d x + a * x * x * x * (rho * rho * rho - C1) + b * x * x * (rho * rho - C1) + c * x * (rho - C1))%C
+      by (unfold cval; ring).
+    rewrite Hx.
+    pose proof (near_mul _ _ _ _ Hrho Hrho) as Hr2. pose proof (near_mul _ _ _ _ Hr2 Hrho) as Hr3.
+    pose proof (near_lo _ _ Hrho) as Lr. unfold near in Hrho, Hr2, Hr3.
+    set (Y := 1 + tau) in *. set (g := 2 - Y) in *. set (rr := Cmod rho) in *.
+    set (A3 := Cmod a * Cmod x * Cmod x * Cmod x). set (B2 := Cmod b * Cmod x * Cmod x). set (C1' := Cmod c * Cmod x).
+    pose proof (Cmod_ge_0 a). pose proof (Cmod_ge_0 b). pose proof (Cmod_ge_0 c). pose proof (Cmod_ge_0 d).
+    assert (P3 : 0 <= A3) by (unfold A3; repeat apply Rmult_le_pos; lra).
+    assert (P2 : 0 <= B2) by (unfold B2; repeat apply Rmult_le_pos; lra).
+    assert (P1 : 0 <= C1') by (unfold C1'; apply Rmult_le_pos; lra).
+    assert (U : Cmod (C0 + a * x * x * x * (rho * rho * rho - C1) + b * x * x * (rho * rho - C1) + c * x * (rho - C1))%C
+                <= A3 * (Y * Y * Y - 1) + B2 * (Y * Y - 1) + C1' * (Y - 1) + Cmod d * 0).
+    { eapply Rle_trans; [apply Cmod_tri4|]. rewrite Cmod_0, !Cmod_mult. fold A3 B2 C1'.
+      assert (A3 * Cmod (rho * rho * rho - C1)%C <= A3 * (Y * Y * Y - 1)) by (apply Rmult_le_compat_l; assumption).
+      assert (B2 * Cmod (rho * rho - C1)%C <= B2 * (Y * Y - 1)) by (apply Rmult_le_compat_l; assumption).
+      assert (C1' * Cmod (rho - C1)%C <= C1' * (Y - 1)) by (apply Rmult_le_compat_l; assumption).
+      lra. }
+    assert (Pg : 0 <= g) by (unfold g, Y; lra).
+    assert (L : A3 * (g * g * g) + B2 * (g * g) + C1' * g + Cmod d <= csize a b c d (x * rho)%C).
+    { unfold csize. rewrite Cmod_mult. fold rr.
+      assert (G1 : g <= rr) by exact Lr.
+      assert (G2 : g * g <= rr * rr) by (apply Rmult_le_compat; lra).
+      assert (G3 : g * g * g <= rr * rr * rr) by (apply Rmult_le_compat; nra).
+      assert (A3 * (g * g * g) <= A3 * (rr * rr * rr)) by (apply Rmult_le_compat_l; assumption).
+      assert (B2 * (g * g) <= B2 * (rr * rr)) by (apply Rmult_le_compat_l; assumption).
+      assert (C1' * g <= C1' * rr) by (apply Rmult_le_compat_l; assumption).
+      replace (Cmod a * (Cmod x * rr) * (Cmod x * rr) * (Cmod x * rr)) with (A3 * (rr * rr * rr)) by (unfold A3; ring).
+      replace (Cmod b * (Cmod x * rr) * (Cmod x * rr)) with (B2 * (rr * rr)) by (unfold B2; ring).
+      replace (Cmod c * (Cmod x * rr)) with (C1' * rr) by (unfold C1'; ring). lra. }
+    assert (F3 : Y * Y * Y - 1 <= 5 * tau * (g * g * g)).
+    { unfold g, Y. assert (0.729 <= (2 - (1 + tau)) * (2 - (1 + tau)) * (2 - (1 + tau))).
+      { assert (0.81 <= (2 - (1 + tau)) * (2 - (1 + tau))) by nra. nra. }
+      assert ((1 + tau) * (1 + tau) * (1 + tau) - 1 <= 3.31 * tau) by nra. nra. }
+    assert (F2 : Y * Y - 1 <= 5 * tau * (g * g)) by (unfold g, Y; nra).
+    assert (F1 : Y - 1 <= 5 * tau * g) by (unfold g, Y; nra).
+    assert (F0 : 0 <= 5 * tau) by lra.
+    pose proof (combine4 A3 B2 C1' (Cmod d) _ _ _ _ g (5 * tau) P3 P2 P1 ltac:(lra) Pg F3 F2 F1 F0) as K.
+    assert (K' : 5 * tau * (A3 * (g * g * g) + B2 * (g * g) + C1' * g + Cmod d) <= 5 * tau * csize a b c d (x * rho)%C)
+      by (apply Rmult_le_compat_l; [lra|exact L]).
+    lra.
+Qed.
+
+(* the residual form of cubic_cardano_forward_lemma *)
+Theorem cubic_cardano_residual_lemma (eps : R) (O : RoundOps) (a b c d k u : C) (kap : R) :
+  0 <= eps <= / 100 -> std_model eps O -> a <> C0 ->
+  ~ (c_d0 O a b c = C0 /\ c_d1 O a b c d = C0) ->
+  k <> C0 -> cardano_eq a b c d k -> (u * u + u + C1)%C = C0 ->
+  relc eps (c_khat eps O a b c d) k -> relc eps (c_uhat O) u -> relc eps (c_d0 O a b c) (d0x a b c) ->
+  (forall w : C, w = k \/ w = (u * k)%C \/ w = (u * u * k)%C ->
+     Cmod b + Cmod w + Cmod (d0x a b c / w)%C <= kap * Cmod (b + w + d0x a b c / w)%C) ->
+  0 <= kap -> kap * (12 * eps) <= / 10 ->
+  exists r0 r1 r2 : C, cubic_solve (RoundRAo eps O) a b c d = Ok [r0; r1; r2] /\
+    forall x : C, x = r0 \/ x = r1 \/ x = r2 -> Cmod (cval a b c d x) <= 60 * kap * eps * csize a b c d x.
+Proof.
+  intros Heps HO Ha Hbr Hk Hcard Hu Hkh Huh Hd0 Hkap Pk Hsmall.
+  destruct (cubic_cardano_forward_lemma eps O a b c d k u kap Heps HO Ha Hbr Hk Hcard Hu Hkh Huh Hd0 Hkap)
+    as (r0 & r1 & r2 & E & Z0 & Z1 & Z2 & F0 & F1 & F2).
+  exists r0, r1, r2. split; [exact E|].
+  assert (T : 0 <= kap * (12 * eps) <= / 10) by (split; [apply Rmult_le_pos; lra | exact Hsmall]).
+  intros x [-> | [-> | ->]].
+  - pose proof (cubic_forward_to_residual a b c d _ r0 _ T Z0 F0). lra.
+  - pose proof (cubic_forward_to_residual a b c d _ r1 _ T Z1 F1). lra.
+  - pose proof (cubic_forward_to_residual a b c d _ r2 _ T Z2 F2). lra.
+Qed.
